@@ -61,6 +61,8 @@ def cases(tier, seed):
         nI, nX = rng.choice([(8, 16), (16, 16), (9, 7), (5, 5), (2, 64), (3, 43), (10, 13), (70, 66)])
         out.append({'id': 'writer:zgy:%d' % i, 'kind': 'zgy-writer', 'zgy': conv.zgy_desc(rng, (nI, nX, rng.choice([5, 17, 64, 100]))), 'rate': rate,
                     'bs': list(bs), 'stage': [None, 'crop', 'reblock'][i % 3], 'cseed': rng.randrange(1 << 30), 'cost': 3})
+    # the repository's own test suite under the monitors (pytest plugin): postconditions on every writer entry point
+    out.append({'id': 'repo-tests-under-monitors', 'kind': 'repo-tests', 'cost': 12})
     nchain = 60 if tier == 'quick' else 360
     for i in range(nchain):
         stages = [rng.choice(['crop', 'reblock', 'export']) for _ in range(rng.choice([1, 2, 2]))]
@@ -244,6 +246,32 @@ def run_zgy_writer(case, ctx):
             n += 1
             strata.append('zgy-stage:' + st)
     return {'violations': bad, 'counters': {'files_checked': n}, 'strata': strata}
+
+
+def run_repo_tests(case, ctx):
+    """The repository's tests with -p vz.pytest_plugin: every file a writer entry point returns during the suite is checked for
+    conformance and decoded independently; native contracts and the range-read monitor run alongside."""
+    import sys
+    outp = ctx['scratch'].file('plugin.json')
+    e = dict(os.environ, VZ_PLUGIN_OUT=outp)
+    e['TMPDIR'] = ctx['scratch'].path
+    p = subprocess.run([env.PY, '-m', 'pytest', '-q', '-p', 'no:cacheprovider', '-p', 'vz.pytest_plugin', '--timeout=900',
+                        '--basetemp', ctx['scratch'].file('pytest-tmp'), 'tests'], cwd=env.REPO, env=e, capture_output=True, text=True, timeout=1500)
+    if not os.path.exists(outp):
+        return {'inconclusive': 'pytest plugin wrote no result (rc %s): %s' % (p.returncode, (p.stdout + p.stderr)[-400:])}
+    r = json.load(open(outp))
+    bad = [{'sig': 'repo-tests:' + v['sig'], 'detail': v['detail']} for v in r['violations']]
+    if r['short_reads_passed_on']:
+        bad.append({'sig': 'repo-tests:short-range-read-passed-on', 'detail': '%d of %d range reads' % (r['short_reads_passed_on'], r['range_reads'])})
+    for b in r['contract_breaches']:
+        bad.append({'sig': 'repo-tests:native-contract-breach', 'detail': b})
+    counters = {'repo_tests_writer_calls': r['writer_calls'], 'repo_tests_files_checked': r['files_checked'], 'repo_tests_volumes_compared': r['volumes_compared'],
+                'repo_tests_contract_evaluations': r['contract_compress'] + r['contract_decompress'], 'repo_tests_range_reads': r['range_reads'],
+                'files_checked': r['files_checked']}
+    res = {'violations': bad, 'counters': counters, 'strata': ['repo-tests'] + ['repo-tests:' + k for k in r['by_entry_point']], 'nontrivial': r['files_checked'] > 0}
+    if r['files_checked'] == 0 or r['contract_compress'] == 0:
+        res['inconclusive'] = 'the repository tests reached no monitored writer (%s)' % (p.stdout[-200:],)
+    return res
 
 
 def run_chain(case, ctx):
@@ -524,7 +552,7 @@ def run_gate_reader(case, ctx):
 
 def run_case(case, ctx):
     k = case['kind']
-    res = {'writer': run_writer, 'zgy-writer': run_zgy_writer, 'fixture-writer': run_fixture_writer, 'chain': run_chain, 'version-shard': run_version_shard,
+    res = {'writer': run_writer, 'repo-tests': run_repo_tests, 'zgy-writer': run_zgy_writer, 'fixture-writer': run_fixture_writer, 'chain': run_chain, 'version-shard': run_version_shard,
            'version-strings': run_version_strings, 'version-gates': run_version_gates, 'gate-writer': run_gate_writer,
            'gate-reader': run_gate_reader}[k](case, ctx)
     res.setdefault('key', case['id'])
@@ -537,7 +565,7 @@ def sample_view(case, res):
 
 def finalize(tier, cases, results, counters, strata):
     reasons = []
-    need = ['writer:3d', 'writer:irregular', 'writer:2d', 'writer:numpy', 'writer:VdsConverter', 'writer:ZgyConverter', 'writer:zgy-generated', 'zgy-stage:crop', 'zgy-stage:reblock', 'stage:crop',
+    need = ['writer:3d', 'writer:irregular', 'writer:2d', 'writer:numpy', 'repo-tests', 'writer:VdsConverter', 'writer:ZgyConverter', 'writer:zgy-generated', 'zgy-stage:crop', 'zgy-stage:reblock', 'stage:crop',
             'stage:reblock', 'stage:export', 'detection:heuristic', 'detection:thorough', 'detection:exhaustive', 'detection:strip',
             'version-space', 'version-strings', 'version-gates', 'gate-writer', 'gate-reader', 'footer4n%512=0', 'narr>=3', 'legacy-source:unpadded', 'legacy-source:padded']
     for s in need:
